@@ -7,6 +7,7 @@
 #include <hgraph/runtime/logger.h>
 #include <hgraph/types/metadata/type_record_registry.h>
 #include <hgraph/util/scope.h>
+#include <hgraph/util/verif_hook.h>
 
 #include <fmt/chrono.h>
 #include <fmt/format.h>
@@ -51,6 +52,7 @@ namespace hgraph
 
         [[nodiscard]] DateTime current_wall_time() noexcept
         {
+            if (std::int64_t verif_us = 0; verif::wall_clock_override(verif_us)) { return DateTime{TimeDelta{verif_us}}; }
             return std::chrono::time_point_cast<std::chrono::microseconds>(engine_clock::now());
         }
 
@@ -333,11 +335,15 @@ namespace hgraph
         {
             auto &state = realtime_storage(memory);
             {
+                verif::sync_point("rt.push.enter");
                 std::lock_guard lock{state.mutex};
+                verif::sync_point("rt.push.locked");
                 if (state.stop_requested.load(std::memory_order_acquire)) { return; }
                 state.push_update_pending = true;
             }
+            verif::sync_point("rt.push.unlocked");
             state.condition.notify_all();
+            verif::sync_point("rt.push.notified");
         }
 
         bool realtime_is_push_update_pending_impl(const void *, void *memory) noexcept
@@ -397,10 +403,12 @@ namespace hgraph
                     // The predicate overload absorbs spurious wakes. A false
                     // return is the forced slice timeout; it only refreshes
                     // wall_now and loops unless target has become due.
+                    verif::sync_point("rt.wait.before");
                     const bool wake_requested_before_timeout = state.condition.wait_for(
                         lock,
                         std::min(target - wall_now, state.max_wait_slice),
                         wake_requested);
+                    verif::sync_point("rt.wait.after");
                     wall_now = current_wall_time();
                     if (wake_requested_before_timeout) { break; }
                 }
@@ -608,6 +616,7 @@ namespace hgraph
 
             while (!state.stop_requested.load(std::memory_order_acquire))
             {
+                verif::sync_point("run.cycle.top");
                 DateTime next = graph.next_scheduled_time();
                 if (next == MAX_DT || next >= state.end_time)
                 {
@@ -617,6 +626,7 @@ namespace hgraph
 
                 const DateTime previous_evaluation_time = state.evaluation_time;
                 const DateTime evaluation_time = advance(state, next);
+                verif::sync_point("run.advance.done");
                 if (state.stop_requested.load(std::memory_order_acquire) ||
                     evaluation_time == MAX_DT ||
                     evaluation_time >= state.end_time)
@@ -698,10 +708,14 @@ namespace hgraph
         {
             auto &state = realtime_storage(memory);
             {
+                verif::sync_point("rt.stop.enter");
                 std::lock_guard lock{state.mutex};
+                verif::sync_point("rt.stop.locked");
                 state.stop_requested.store(true, std::memory_order_release);
             }
+            verif::sync_point("rt.stop.unlocked");
             state.condition.notify_all();
+            verif::sync_point("rt.stop.notified");
         }
 
         void simulation_add_evaluation_notification_impl(const void *, void *memory,
